@@ -1129,6 +1129,40 @@ mod error;
 pub use self::{client::*, error::*, internal_metrics::*};
 
 /**
+Verification hooks.
+
+This module only exists when compiling with `--cfg emit_rs_emit_verif`. It is not part of the public API.
+*/
+#[cfg(emit_rs_emit_verif)]
+#[allow(missing_docs)]
+pub mod verif {
+    use std::{
+        sync::atomic::{AtomicU64, Ordering},
+        time::Duration,
+    };
+
+    static REQUEST_TIMEOUT_MILLIS: AtomicU64 = AtomicU64::new(0);
+
+    /**
+    Override the timeout applied to each export request.
+    */
+    pub fn set_request_timeout(timeout: Option<Duration>) {
+        REQUEST_TIMEOUT_MILLIS.store(
+            timeout.map(|timeout| timeout.as_millis() as u64).unwrap_or(0),
+            Ordering::SeqCst,
+        );
+    }
+
+    pub(crate) fn request_timeout() -> Option<Duration> {
+        match REQUEST_TIMEOUT_MILLIS.load(Ordering::SeqCst) {
+            0 => None,
+            millis => Some(Duration::from_millis(millis)),
+        }
+    }
+}
+
+
+/**
 A value to use as `telemetry.sdk.name` in [`OtlpBuilder::resource`].
 */
 pub const fn telemetry_sdk_name() -> &'static str {
